@@ -100,20 +100,23 @@ type hsStream struct{ *Stream }
 func (h hsStream) HandshakeContext(ctx context.Context) error { return h.Stream.Handshake(ctx) }
 
 type Opts struct {
-	BlockWise     bool
-	SZX           blockwise.SZX
-	MaxMsgSize    uint32
-	CacheSize     uint16
-	DisableCSM    bool
-	NoCloseSocket bool
-	Handler       client.HandlerFunc
-	LimitTotal    int64
-	LimitEndpoint int64
-	QueueSize     int
-	Monitor       func() client.InactivityMonitor
-	Handshake     func(ctx context.Context) error
-	BWTimeout     time.Duration
-	OnSignal      func(codes.Code)
+	BlockWise      bool
+	SZX            blockwise.SZX
+	MaxMsgSize     uint32
+	CacheSize      uint16
+	DisableCSM     bool
+	NoCloseSocket  bool
+	Handler        client.HandlerFunc
+	LimitTotal     int64
+	LimitEndpoint  int64
+	QueueSize      int
+	Monitor        func() client.InactivityMonitor
+	Handshake      func(ctx context.Context) error
+	BWTimeout      time.Duration
+	OnSignal       func(codes.Code)
+	RequestMonitor client.RequestMonitorFunc
+	WriteErr       error    // every write fails from the start (the CSM sent at construction cannot be written)
+	OnClose        []func() // on-close callbacks registered before the read loop starts
 }
 
 type World struct {
@@ -128,7 +131,7 @@ type World struct {
 
 // New builds the conn and starts its read loop (call from inside a managed thread).
 func New(o Opts) *World {
-	w := &World{St: &Stream{Handshake: o.Handshake}}
+	w := &World{St: &Stream{Handshake: o.Handshake, WriteErr: o.WriteErr}}
 	cfg := client.DefaultConfig
 	w.Pool = pool.New(0, 0)
 	cfg.MessagePool = w.Pool
@@ -169,9 +172,15 @@ func New(o Opts) *World {
 	if o.Monitor != nil {
 		opts = append(opts, client.WithInactivityMonitor(o.Monitor()))
 	}
+	if o.RequestMonitor != nil {
+		opts = append(opts, client.WithRequestMonitor(o.RequestMonitor))
+	}
 	w.CC = client.NewConnWithOpts(coapNet.NewConn(nc), &cfg, opts...)
 	if o.OnSignal != nil {
 		w.CC.SetTCPSignalReceivedHandler(o.OnSignal)
+	}
+	for _, f := range o.OnClose {
+		w.CC.AddOnClose(f)
 	}
 	vrt.Lib("tcp-session-run", func() {
 		w.RunErr = w.CC.Run()
